@@ -89,6 +89,13 @@ CHECKS["C19"] = (
     "failed URI is fetched again on retry, and after reopening the directory (crash/restart) it is served with "
     "complete data, never from a partial or rejected file.", "DESIGN.md#c19",
     "File system / resource faults are models; counterexamples are replayed in a real directory.")
+CHECKS["C12"] = (
+    "For every symbolic positive e(f) and symbolic moments (nf 3..4, thorough 6; batch of 2; NaN bins): peak method: "
+    "the equilibrium level is the first maximum of E f^4, u* equals 8 pi^3 E_eq/(4 g I beta) (1e-9 relative, "
+    "non-default I/beta/kappa/Charnock), direction equals atan2(b1,a1) at that frequency mod 360 in [0,360), "
+    "u10 == u*/kappa log(10/z0) with the Charnock z0; coming-from == (270 - going-to) mod 360; a 2D spectrum gives the "
+    "answer of its 1D reduction; u* scales linearly. Mean method (2..3 bin windows): level is exactly c on c f^-4 "
+    "spectra and on a c f^-4 range inside an otherwise different spectrum.", "DESIGN.md#c12", "")
 NA = {}
 
 ALL = [f"C{i:02d}" for i in range(1, 21)]
